@@ -7,7 +7,7 @@ from ..conds import facts_at, truth
 from ..facts import keyname, AnchorLost
 from ..flow import flow, deps, deep_strip, strip, show, mentions, fold
 from .util import call_sites, closure_constructions
-from .iterc import insts, action_closures, pending_next, exf_of
+from .iterc import insts, action_closures, pending_next, exf_of, slot_index_exprs
 from .C09 import load_calls, store_calls
 from .C02 import action_calls
 
@@ -90,15 +90,8 @@ def rule_b(ctx):
         ctx.fn(n)
         key = "next<%s>" % exf_of(n.name)
         for bb, t in load_calls(F, n):
-            slot = [deep_strip(e) for e in flow(n).term_arg(bb, 1)]
             sig = [uncast(e) for e in flow(n).term_arg(bb, 2)]
-            idx = []
-            for e in slot:
-                x = e
-                while x[0] in ("ref", "deref"):
-                    x = deep_strip(x[1])
-                if x[0] == "index":
-                    idx.append(uncast(x[2]))
+            idx = [uncast(x) for x in slot_index_exprs(n, flow(n).term_arg(bb, 1))]
             okk = bool(idx) and bool(sig) and all(i == s for i in idx for s in sig) and all(i[0] == "field" and i[2] == "position" for i in idx)
             ctx.check(okk, rid, key + ":slot-index=signal-number", "load(&slots[p], p as c_int) with the same position p", t["sp"], {"slot_index": [show(i) for i in idx], "signal": [show(s) for s in sig]})
     adds = insts(F, r"^<signal_hook::iterator::backend::PendingSignals<.*> as signal_hook::iterator::backend::AddSignal>::add_signal$", "PendingSignals::add_signal", 3)
